@@ -48,9 +48,9 @@ func init() {
 		},
 		NumCases: func(tier, variant string) int {
 			if tier == "thorough" {
-				return stor.DevCases(480)
+				return stor.DevCases(320)
 			}
-			return stor.DevCases(40)
+			return stor.DevCases(24)
 		},
 		Prepare: prepare,
 		Run:     run,
